@@ -27,7 +27,7 @@ RULE = ("random release tables (1-12 rows, 1-5 distinct times on the model time 
         "time-typed particle variable, header in file or names in configuration, X/Y or lon/lat), discrete and continuous "
         "(frequency 1-4 steps), forward and reversed, still water, output every step. Non-trivial: at least two release "
         "events at different steps or rows outside the window or mult != 1; distinct by (mode, direction, step/mult pattern).")
-MANDATORY = ["warm_started_leg_with_later_releases", "continuous_file_time_with_only_mult_zero_after_a_releasing_one", "time_typed_column_with_mixed_iso_precisions", "lonlat_position_on_off_diagonal_subgrid", "integer_column_beyond_2_to_53", "discrete_release_with_frequency_entry", "file_with_XY_and_lonlat", "table_with_17_or_more_rows_several_per_time", "release_after_particles_were_removed", "discrete_forward", "discrete_reversed", "continuous_forward", "continuous_reversed",
+MANDATORY = ["earlier_run_with_another_table_under_the_same_file_names", "start_time_not_a_multiple_of_dt_counted_from_1970", "warm_started_leg_with_later_releases", "continuous_file_time_with_only_mult_zero_after_a_releasing_one", "time_typed_column_with_mixed_iso_precisions", "lonlat_position_on_off_diagonal_subgrid", "integer_column_beyond_2_to_53", "discrete_release_with_frequency_entry", "file_with_XY_and_lonlat", "table_with_17_or_more_rows_several_per_time", "release_after_particles_were_removed", "discrete_forward", "discrete_reversed", "continuous_forward", "continuous_reversed",
              "row_before_start", "row_at_or_after_stop", "mult_zero", "mult_gt1", "several_rows_per_time", "lonlat_position",
              "names_in_config", "particle_variable_column", "release_hook_events", "time_typed_column_values", "column_with_configured_default"]
 ASSUMPTIONS = ["release times on the model time grid and sorted in simulation order (as the property quantifies)",
@@ -46,7 +46,7 @@ def gen_case(seed: int, idx: int) -> dict[str, Any]:
     if cont:
         extra_stop = 0  # a tick could fall on start + nsteps*dt < stop, see below
     sgn = -1 if rev else 1
-    start = C.T0
+    start = str(tadd(C.T0, [0, 90, 300][idx % 3]))  # start times that are not whole multiples of dt counted from 1970 (or from midnight) too
     stop = str(tadd(start, sgn * (nsteps * dt + extra_stop)))
     freq_steps = int(rng.integers(1, 5)) if cont else 0
     ntimes = int(rng.integers(1, 6))
@@ -279,6 +279,27 @@ def run_case(case: dict[str, Any], wd: Path) -> dict[str, Any]:
             t = self.modules["time"]
             events.append(dict(step=int(t.step), clock=str(t.time), n=int(n)))
 
+    if case["idx"] % 5 == 0:
+        # history: an earlier run in this process used another release table (and grid files) under the very same file names
+        import copy  # noqa: PLC0415
+
+        alt = copy.deepcopy(case)
+        alt["rows"] = [r_[:] for r_ in (case["rows"][:-1] or case["rows"])]
+        for r_ in alt["rows"]:
+            if case["use_mult"]:
+                r_[case["columns"].index("mult")] = 1
+            zi_ = case["columns"].index("Z")
+            r_[zi_] = float(r_[zi_]) + 1.5
+        pre, _cp, _wp = run_scenario(build_scenario(alt), wd)
+        for f_ in pre.outputs:
+            Path(f_).unlink(missing_ok=True)
+        sit_pre = int(pre.ok)
+        if not pre.ok:  # an aborted run may have left its forcing file open: the main run gets fresh files
+            import shutil  # noqa: PLC0415
+
+            shutil.rmtree(wd / "world", ignore_errors=True)
+    else:
+        sit_pre = 0
     with Hooks() as hk:
         hk.wrap(ParticleReleaser, "update", before, after)
         res, conf, _w = run_scenario(scn, wd)
@@ -310,6 +331,8 @@ def run_case(case: dict[str, Any], wd: Path) -> dict[str, Any]:
             if seen_nonzero and all(r[mi] == 0 for r in grp) and p_ < length:
                 sit["continuous_file_time_with_only_mult_zero_after_a_releasing_one"] = 1
             seen_nonzero = seen_nonzero or any(r[mi] > 0 for r in grp)
+    sit["earlier_run_with_another_table_under_the_same_file_names"] = sit_pre
+    sit["start_time_not_a_multiple_of_dt_counted_from_1970"] = int(int((np.datetime64(case["start"], "s") - np.datetime64("1970-01-01T00:00:00", "s")) / np.timedelta64(1, "s")) % dt != 0)
     sit["several_rows_per_time"] = int(len(set(poss)) < len(poss))
     sit["lonlat_position"] = int(case["lonlat"])
     sit["lonlat_position_on_off_diagonal_subgrid"] = int(case["lonlat"] and case["idx"] % 2 == 0)
